@@ -84,6 +84,9 @@ class _Worker:
 
 
 class ImplPool:
+    _shared_tstate = {'timeouts': 0, 'slowest_ok': 0.0}
+    _shared_tlock = threading.Lock()
+
     def __init__(self, scratch, n=8, timeout=60, env_extra=None):
         self.scratch = scratch
         self.n = n
@@ -94,6 +97,15 @@ class ImplPool:
         # recorded in the result and counted)
         self.retry_timeouts = False
         self.timeouts_retried = 0
+        # a change that makes MANY calls hang must not turn the check into an hour-long wait: after
+        # `full_timeouts` tasks of one map() have run into the full deadline, the remaining tasks get the short
+        # deadline max(short_floor, 4 x the slowest task that did complete so far) — still a real observation
+        # (the result says which deadline applied)
+        self.full_timeouts = 3
+        self.short_floor = 10.0
+        # one state for all pools of this check run (C02 uses one pool per hash seed)
+        self._tstate = ImplPool._shared_tstate
+        self._tlock = ImplPool._shared_tlock
 
     def map(self, tasks, timeout=None):
         results = self._map(tasks, timeout)
@@ -115,15 +127,29 @@ class ImplPool:
         for i, t in enumerate(tasks):
             q.put((i, t))
 
+        state = self._tstate          # shared by all map() calls of this pool (shrinking calls map() per candidate)
+        lock = self._tlock
+
         def loop(w):
             while True:
                 try:
                     i, t = q.get_nowait()
                 except queue.Empty:
                     return
+                limit = t.get('_timeout', timeout)
+                with lock:
+                    if state['timeouts'] >= self.full_timeouts:
+                        limit = min(limit, max(self.short_floor, 4 * state['slowest_ok']))
                 t0 = time.time()
-                res = w.run(t, t.get('_timeout', timeout))
-                res['_seconds'] = round(time.time() - t0, 3)
+                res = w.run(t, limit)
+                dt = time.time() - t0
+                res['_seconds'] = round(dt, 3)
+                with lock:
+                    if res.get('err') == 'Timeout':
+                        state['timeouts'] += 1
+                        res['deadline'] = limit
+                    else:
+                        state['slowest_ok'] = max(state['slowest_ok'], dt)
                 results[i] = res
 
         threads = [threading.Thread(target=loop, args=(w,)) for w in self.workers]
